@@ -734,22 +734,32 @@ structure Bin where
   read : PGroup → SpecInfo → List Rat
 
 def toSpectrum (B : Bin) (m : Model) (s : SpecInfo) : Pew.Imzml.Spectrum :=
-  { x := B.int s.x, y := B.int s.y, tic := s.tic.map B.float, mz := B.read m.mz s, it := B.read m.inten s }
+  { x := (B.int s.x : Int), y := (B.int s.y : Int), tic := s.tic.map B.float, mz := B.read m.mz s, it := B.read m.inten s }
 
 /-- the spectra in document order; the parsers' dictionary keeps the last one per position, which is
 what the placement loop (`Pew.Imzml.place`) does with the list -/
 def spectraOf (B : Bin) (m : Model) : List Pew.Imzml.Spectrum := m.spectra.map (toSpectrum B m)
 
-/-- `ImzML.image_size` -/
-def imageSizeOf (B : Bin) (m : Model) : Nat × Nat :=
-  Pew.Imzml.imageSize (m.scan.size.map (fun p => (B.int p.1, B.int p.2))) (spectraOf B m)
+/-- the `scan_settings.image_size` pair as given in the document, if any -/
+def sizeArg (B : Bin) (m : Model) : Option (Int × Int) :=
+  m.scan.size.map (fun p => ((B.int p.1 : Int), (B.int p.2 : Int)))
 
-/-- `ImzML.extract_tic()` as a table of shape `(Y, X)`; `none` = NaN -/
+/-- `ImzML.image_size` as `(X, Y)`; `(0, 0)` when there is neither a declared size nor a spectrum -/
+def imageSizeOf (B : Bin) (m : Model) : Nat × Nat :=
+  match Pew.Imzml.imageSize (sizeArg B m) (spectraOf B m) with
+  | some (x, y) => (x.toNat, y.toNat)
+  | none => (0, 0)
+
+/-- `ImzML.extract_tic()` as a table of shape `(Y, X)`; `none` = NaN; `[]` when the call raises -/
 def ticImageOf (B : Bin) (m : Model) : List (List (Option Rat)) :=
-  Pew.Imzml.tabulate (imageSizeOf B m) (Pew.Imzml.ticImage (spectraOf B m))
+  match Pew.Imzml.ticImage (sizeArg B m) (spectraOf B m) with
+  | some (shape, img) => Pew.Imzml.tabulate shape img
+  | none => []
 
 /-- `ImzML.extract_masses(masses, width)` as a table of shape `(Y, X)` of window sums -/
 def massImageOf (B : Bin) (m : Model) (masses : List Rat) (w : Pew.Imzml.Width) : List (List (Option (List Rat))) :=
-  Pew.Imzml.tabulate (imageSizeOf B m) (Pew.Imzml.extractImage (spectraOf B m) masses w)
+  match Pew.Imzml.extractImage (sizeArg B m) (spectraOf B m) masses w with
+  | some (shape, img) => Pew.Imzml.tabulate shape img
+  | none => []
 
 end Pew.FastParse
